@@ -45,10 +45,44 @@ static int replay_evplus_pw(replay_args &a)
     REPRO(got != want, "the result at an assignment depends on how the operands are represented: %s vs %s", got.c_str(), want.c_str());
     NOREPRO();
 }
+// ---- MT shortcuts with non-terminal operands: op(A, B) at a point must equal op(const A(point), const B(point)) ----
+static void mt_build(forest* f, int h, int ph, int var, dd_edge &e, long &at1)
+{   // h <= 0: the constant dec(h); h > 0: a function of x_var with value dec(ph) at x_var = 1 and a different value at 0
+    long v1 = h > 0 ? dec(ph) : dec(h), v0 = h > 0 ? (v1 == 7 ? 8 : 7) : v1;
+    at1 = v1;
+    minterm_coll mtl(4, f);
+    for (int x1 = 0; x1 < 2; x1++) for (int x2 = 0; x2 < 2; x2++) {
+        minterm &m = mtl.unused(); m.setVar(1, x1); m.setVar(2, x2);
+        m.setValue(rangeval(((var == 1 ? x1 : x2) == 1) ? v1 : v0));
+        mtl.pushUnused();
+    }
+    mtl.buildFunctionMax(rangeval(-1073741824L), e);
+}
+static std::string mt_at(dd_edge &e, forest* f, int x1, int x2) { minterm m(f); m.setVar(1, x1); m.setVar(2, x2); rangeval v; e.evaluate(m, v); return std::to_string(long(v)); }
+static int replay_mt_pw(replay_args &a)
+{
+    std::string op = a.job.substr(3, a.job.find('_', 3) - 3);
+    binary_builtin0 which = op == "plus" ? PLUS : op == "minus" ? MINUS : op == "mult" ? MULTIPLY : op == "div" ? DIVIDE : op == "mod" ? MODULO : op == "max" ? MAXIMUM : op == "min" ? MINIMUM : nullptr;
+    if (!which) { printf("unknown operation %s\n", op.c_str()); return 2; }
+    initialize();
+    int bounds[] = {2, 2};
+    domain* d = domain::createBottomUp(bounds, 2);
+    forest* f = forest::create(d, SET, range_type::INTEGER, edge_labeling::MULTI_TERMINAL);
+    dd_edge A(f), B(f), C(f), PA(f), PB(f), PC(f); long pa, pb, dummy;
+    mt_build(f, (int)a.i("w_a"), (int)a.i("w_pa"), 1, A, pa); mt_build(f, (int)a.i("w_b"), (int)a.i("w_pb"), 2, B, pb);
+    f->createConstant(pa, PA); f->createConstant(pb, PB);
+    std::string got, want;
+    try { apply(which, A, B, C); got = mt_at(C, f, 1, 1); } catch (error e) { got = std::string("error ") + e.getName(); }
+    try { apply(which, PA, PB, PC); want = mt_at(PC, f, 1, 1); } catch (error e) { want = std::string("error ") + e.getName(); }
+    printf("%s at (1,1): A=%ld B=%ld: functions give %s, the constants give %s\n", op.c_str(), pa, pb, got.c_str(), want.c_str());
+    REPRO(got != want, "the result at an assignment depends on how the operands are represented: %s vs %s", got.c_str(), want.c_str());
+    NOREPRO();
+}
 int main(int argc, char** argv)
 {
     replay_args a(argc, argv);
     if (a.job.compare(0, 7, "evplus_") == 0) return replay_evplus_pw(a);
+    if (a.job.size() > 3 && a.job.compare(a.job.size() - 3, 3, "_pw") == 0) return replay_mt_pw(a);
     int ha = (int)a.i("w_a"), hb = (int)a.i("w_b");
     long av = dec(ha), bv = dec(hb);
     std::string op = a.job.substr(3, a.job.find('_', 3) - 3);     // mt_<op>_kernel / mt_<op>_shortcuts
